@@ -182,8 +182,16 @@ let () =
           let cr = (zbyte.(13), zone) in
           List.rev_map (fun (d, l) -> (d, if !crlf then l @ [cr] else l)) !text in
         let render st l =
-          String.concat ";" (fmt_table st :: List.map (fun ((a, b), g) ->
-            "D" ^ fmt_out a ^ "/S" ^ (match b with None -> "-" | Some (i, o) -> zs i ^ ":" ^ fmt_out o)
+          (* D is printed from the model COMPILED from the Rust source of fill_symbol (Gen/C11Src.v); where the hand-written
+             model answers differently (never on the unchanged tree: c11_compiled_fill_symbol) both are shown *)
+          String.concat ";" (fmt_table st :: List.map (fun (((a, b), g), c) ->
+            let d = match c with
+              | Ret o when o = a -> fmt_out a
+              | Ret o -> fmt_out o ^ "!hand-written-model=" ^ fmt_out a
+              | Panic t -> "panic" ^ zs t ^ "!hand-written-model=" ^ fmt_out a
+              | OutOfFuel -> "fuel!hand-written-model=" ^ fmt_out a
+              | Fail -> "fail!hand-written-model=" ^ fmt_out a in
+            "D" ^ d ^ "/S" ^ (match b with None -> "-" | Some (i, o) -> zs i ^ ":" ^ fmt_out o)
             ^ "/G" ^ opt zs g) l) in
         let from st = match run_case_st st mbase msize extra qs with Ret l -> render st l | r -> fail r in
         let ans =
